@@ -71,6 +71,9 @@ def run(ctx):
     # (1) linearisability of recorded concurrent LRU histories against LRU.tla
     tr = os.path.join(ctx.work, "conc-lru.ndjson")
     i1 = ctx.run_vh(["conc-lru", "-out", tr, "-histories", 400 if q else 4000, "-hot", 4000 if q else 40000])
+    if i1.get("hang"):
+        ctx.violation("C11|hang|lru", "concurrent operations on one cache.LRUCache (get / put / delete / size / stats from 2-4 goroutines) did not "
+                      "return within 60 s after %s histories" % i1.get("histories"), {"histories_completed": i1.get("histories")}, name="hang")
     hs = split_histories(tr)
     nshards = 8
     bad = []
@@ -115,7 +118,7 @@ def run(ctx):
     for x in rej2:
         evs, at = x["trace"], x["at"]
         ev = json.loads(evs[at - 1])
-        sig = "C11|lost-increment" if ev["op"] == "ctotal" else "C11|caller-options-modified" if ev["op"] == "coptions" else "C11|%s|%s" % ("panic" if ev.get("panic") else "answer-differs", ev.get("entry"))
+        sig = "C11|hang" if ev["op"] == "chang" else "C11|lost-increment" if ev["op"] == "ctotal" else "C11|caller-options-modified" if ev["op"] == "coptions" else "C11|%s|%s" % ("panic" if ev.get("panic") else "answer-differs", ev.get("entry"))
         ctx.violation(sig, "concurrent run: %s" % evs[at - 1][:300], ev, name="conc")
     cov = {"states": r["distinct"], "transitions": r["generated"], "traces_validated_against_impl": len(hs) - len(bad) + ok2,
            "samples": [[json.loads(e) for e in hs[0][:9]]], "lru_histories": len(hs), "lru_events": i1.get("events"),
